@@ -18,5 +18,6 @@ func TestVerifReplay(t *testing.T) {
 		"Verif_C14_VisitedGuard": Verif_C14_VisitedGuard,
 		"Verif_C13_Tables":       Verif_C13_Tables,
 		"Verif_C13_Imports":      Verif_C13_Imports,
+		"Verif_C12_Attribution":  Verif_C12_Attribution,
 	})
 }
